@@ -639,6 +639,55 @@ class CRG_product_1(_CRG_side_bonds):
     keep_label = "FORMED"
 
 
+class _SCRG_side_changes(LoopInv):
+    """for key, change_dict in self._atom_stereo_change.items():      (and the bond table)
+           if stereo := change_dict[Change.BROKEN]:  reactant._atom_stereo[key] = stereo      (product: FORMED, through set_*_stereo)"""
+    atomic = True
+    label = "BROKEN"
+    copy_name = "reactant"
+
+    def setup(self, ctx, iterable):
+        t = "astereo" if self.atomic else "bstereo"
+        self.modifies_dict_dom = (t,)
+        self.modifies_dict_val = (t,)
+
+    def inv(self, ctx, done):
+        e = ctx.fr.env[self.copy_name]
+        v0 = ctx.v_entry
+        ve0 = GM.View(ctx.h_entry, e)
+        ve = GM.View(H.heap_of(ctx.interp).snapshot(), e)
+        at = self.atomic
+        k = z3.Int("lk") if at else z3.Const("lkb", BondS)
+        c = H.CHG[self.label]
+        osome = H.ODescrS.DSome
+        if at:
+            view = lambda vv: z3.If(vv.as_has(k), osome(vv.as_val(k)), H.ODescrS.DNone)  # noqa
+            taken = z3.And(z3.Select(done, k), v0.ac_has(k), v0.ac_slot_has(k, c))
+            slot = v0.ac_slot(k, c)
+        else:
+            view = lambda vv: z3.If(vv.bs_has(k), osome(vv.bs_val(k)), H.ODescrS.DNone)  # noqa
+            taken = z3.And(z3.Select(done, k), v0.bc_has(k), v0.bc_slot_has(k, c))
+            slot = v0.bc_slot(k, c)
+        tname = "astereo" if at else "bstereo"
+        tref = e.fields["_atom_stereo" if at else "_bond_stereo"].ref
+        return [
+            ("visited-are-keys", FA([k], z3.Implies(z3.Select(done, k), z3.Select(ctx.C, k)), patterns=[z3.Select(done, k)])),
+            ("descriptors-of-this-role-put-in-place-others-as-before", FA([k], view(ve) == z3.If(taken, slot, view(ve0)))),
+            ("only-the-new-graph's-table-is-written", _frame_other_refs(ctx, tname, tref)),
+        ]
+
+    def hints(self, ctx, x):
+        return [ctx.v_entry.ac_ref(x) if self.atomic else ctx.v_entry.bc_ref(x)]
+
+
+def _side_loops(method, label):
+    out = {}
+    for ordinal, atomic in ((0, True), (1, False)):
+        out[("graphs/scrg.py", f"StereoCondensedReactionGraph.{method}", ordinal)] = type(
+            f"SCRG_{method}_{ordinal}", (_SCRG_side_changes,), {"atomic": atomic, "label": label, "copy_name": method})
+    return out
+
+
 def _role_loop(label):
     class _L(LoopInv):
         __doc__ = f"""for bond in self.bonds: a1, a2 = bond; if self.get_bond_attribute(a1, a2, "reaction") == Change.{label}: acc.add(bond)"""
@@ -702,3 +751,6 @@ SUMMARISE = {
     ("graphs/mg.py", "MolGraph.relabel_atoms", 3),
     ("graphs/mg.py", "MolGraph.relabel_atoms", 4),
 }
+
+LOOPS.update(_side_loops("reactant", "BROKEN"))
+LOOPS.update(_side_loops("product", "FORMED"))
